@@ -43,6 +43,29 @@ CHECKS = {
         "drivers": [fsync("scripts", 30, 250, 4, 10), fsync("sync", 10, 60, 1, 4)],
         "assumptions": FS_ASSUMPTIONS,
     },
+    "C06": {
+        "trace_module": "Trace_FilterSync",
+        "mc": [],
+        "drivers": [fsync("advsub", 25, 200, 3, 8), fsync("adv", 15, 120, 2, 6)],
+        "assumptions": FS_ASSUMPTIONS + ["filter hashes are identified with block ids (SimChain gives every block a unique filter); tampered bytes are id 0"],
+    },
+    "C02": {
+        "trace_module": "Trace_FilterSync",
+        "mc": [],
+        "drivers": [fsync("adv", 30, 250, 4, 10), fsync("fetch", 10, 80, 1, 4)],
+        "assumptions": FS_ASSUMPTIONS,
+    },
+    "C08": {
+        "trace_module": "Trace_FilterSync",
+        "mc": [],
+        "drivers": [{"name": "filtersync-crash", "driver": "filtersync", "args": ["mode=crash"], "trace_module": "Trace_FilterSync",
+                     "n": {"quick": 1, "thorough": 6}, "procs": {"quick": 6, "thorough": 12},
+                     "tier_args": {"quick": ["maxk=45"], "thorough": ["maxk=100000"]}}],
+        "assumptions": FS_ASSUMPTIONS + [
+            "a crash is process death right before a storage write (hook in storage.rs); every individual put / delete / batch commit is assumed atomic and durable in call order (RocksDB WAL); torn files are out of scope",
+            "after the crash every in-memory object is dropped and the store is reopened exactly as subcmds.rs does",
+        ],
+    },
     "C16": {
         "trace_module": "Trace_FilterSync",
         "mc": [],
